@@ -67,10 +67,19 @@ fn parse_gres(l: &[u64]) -> (Gres, &[u64]) {
 }
 fn show_pret<T>(r: &Result<T, ProtocolError>, o: &mut L) { match r { Ok(_) => o.push(0), Err(e) => { o.push(1); o.push(perr_code(e)); } } }
 type Log = Rc<RefCell<Vec<(u64, Packet)>>>;
+thread_local! { static DEPTH: std::cell::Cell<u32> = std::cell::Cell::new(0); }
+// A scripted handler: logs what it was given and, when invoked by a top-level dispatch, sends its packets through the protocol
+// handle.  A packet it sends to the device's own address re-enters the dispatcher; from such a nested dispatch the handlers only
+// log (otherwise the recursion would never end, in the library as well).
 fn make_handler(label: u64, sends: Vec<Packet>, log: Log) -> Box<dyn FnMut(&Packet, &mut Protocol<'static, MockIf>)> {
     Box::new(move |p: &Packet, proto: &mut Protocol<'static, MockIf>| {
         log.borrow_mut().push((label, p.clone()));
-        for s in sends.iter() { let _ = proto.send_packet(s); }
+        let d = DEPTH.with(|c| c.get());
+        if d == 0 {
+            DEPTH.with(|c| c.set(1));
+            for s in sends.iter() { let _ = proto.send_packet(s); }
+            DEPTH.with(|c| c.set(0));
+        }
     })
 }
 fn show_log(log: &Log, ids: &std::collections::HashMap<u64, u64>, o: &mut L) {
@@ -91,6 +100,7 @@ fn parse_add(body: &[u64]) -> (u64, bool, Vec<Packet>) {      // label cap n pac
 }
 
 pub fn exec_pro(case: &[u64]) -> L {
+    DEPTH.with(|c| c.set(0));
     let own = case[0] as u16; let nops = case[1] as usize;
     let (ops, _) = split_lists(&case[2..], nops);
     let st = Rc::new(RefCell::new(IfSt::default()));
@@ -142,7 +152,7 @@ pub fn gen_pro(r: &mut Rng, thorough: bool, cx: &mut Ctx) {
             match r.below(10) {
                 0 | 1 | 2 => { b.extend_from_slice(&[0, label, r.chance(1, 3) as u64]); label += 1;
                                let ns = if r.chance(1, 4) { r.range(1, 2) } else { 0 }; b.push(ns);
-                               for _ in 0..ns { let a = other_addr(r, own); let a = if own != 0xffff && r.chance(1, 3) { 0xffff } else { a }; let p = small_packet(r, a); show_packet(&p, &mut b); }
+                               for _ in 0..ns { let a = match r.below(6) { 0 | 1 => 0xffff, 2 => own, _ => other_addr(r, own) }; let p = small_packet(r, a); show_packet(&p, &mut b); }
                                issued.push(issued.len() as u64); }
                 3 | 4 => { let live = if issued.is_empty() { 0 } else { r.below(issued.len() as u64 + 1) };
                            let id = match r.below(7) { 0 => r.below(8), 1 => 1000 + r.below(5), 2 => live + 32 * r.range(1, 3), 3 => live + (1u64 << r.range(5, 31)), 4 => 0xffff_ffff - r.below(3), _ => live }; b.extend_from_slice(&[1, id & 0xffff_ffff]); }
@@ -173,6 +183,7 @@ macro_rules! exch {
     };
 }
 pub fn exec_exc(case: &[u64]) -> L {
+    DEPTH.with(|c| c.set(0));
     let own = case[0] as u16; let cap = case[1] != 0; let kind = case[2]; let multi = case[3] != 0;
     let (p, rest) = parse_packet(&case[4..]);
     let nh = rest[0] as usize; let (hls, rest) = split_lists(&rest[1..], nh);
@@ -209,18 +220,20 @@ pub fn exec_exc(case: &[u64]) -> L {
 }
 pub fn gen_exc(r: &mut Rng, thorough: bool, cx: &mut Ctx) {
     for kind in 0..16u64 {
-        for _ in 0..(if thorough { 6000 } else { 300 }) {
+        for it in 0..(if thorough { 6000 } else { 300 }) {
+            // long incoming queues (a match only behind many packets that do not match): the first few cases of every kind
+            let long: u64 = match it { 0 => 60 + r.below(10), 1 => 250 + r.below(20), 2 => 1000 + r.below(100), 3 if thorough && kind % 5 == 0 => 66000, _ => 0 };
             let own: u16 = match r.below(5) { 0 => 0xffff, 1 => 1, _ => r.u16b() as u16 };
-            let cap = r.chance(1, 3); let multi = r.coin();
+            let cap = r.chance(1, 3); let multi = if long > 0 { it % 2 == 0 || r.coin() } else { r.coin() };
             let dest = match r.below(4) { 0 => own, 1 => 0xffff, _ => other_addr(r, own) };
             let req = small_packet(r, dest);
             let mut l = vec![own as u64, cap as u64, kind, multi as u64]; show_packet(&req, &mut l);
             let nh = r.below(4); l.push(nh);
-            for i in 0..nh { let mut b = vec![0, 500 + i, r.chance(1, 3) as u64]; let ns = r.below(2); b.push(ns); for _ in 0..ns { let a = other_addr(r, own); let p = small_packet(r, a); show_packet(&p, &mut b); } push_list(&mut l, &b); }
-            let ng = r.below(13); let mut gets: Vec<L> = vec![];
-            for _ in 0..ng {
+            for i in 0..nh { let mut b = vec![0, 500 + i, r.chance(1, 3) as u64]; let ns = r.below(2); b.push(ns); for _ in 0..ns { let a = if r.chance(1, 4) { own } else { other_addr(r, own) }; let p = small_packet(r, a); show_packet(&p, &mut b); } push_list(&mut l, &b); }
+            let ng = if long > 0 { long } else { r.below(13) }; let mut gets: Vec<L> = vec![];
+            for gi in 0..ng {
                 let mut g: L = vec![0];
-                let pk = match r.below(9) {
+                let pk = match if long > 0 && gi + 3 < ng { 4 + r.below(5) } else { r.below(9) } {
                     0 | 1 | 2 => { let mut p = ref_encode(&gen_event(r, kind, 20)); if kind != 1 && kind != 5 { p.device_address = match r.below(3) { 0 => own, 1 => 0xffff, _ => other_addr(r, own) }; } else if r.coin() { p.device_address = own; } p }
                     3 => { let k2 = r.below(16); let mut p = ref_encode(&gen_event(r, k2, 20)); p.device_address = own; p }
                     4 => { let mut p = ref_encode(&gen_event(r, kind, 20)); p.device_address = own; p.is_error = true; p }
@@ -229,7 +242,7 @@ pub fn gen_exc(r: &mut Rng, thorough: bool, cx: &mut Ctx) {
                 };
                 show_packet(&pk, &mut g); gets.push(g);
             }
-            match r.below(6) { 0 => gets.push(vec![2, r.pick(&ERR_CODES)]), 1 => gets.push(vec![1]), 2 => { let i = r.below(gets.len() as u64 + 1) as usize; gets.insert(i, vec![1]); } 3 => { let i = r.below(gets.len() as u64 + 1) as usize; gets.insert(i, vec![2, r.pick(&ERR_CODES)]); } _ => {} }
+            match if long > 0 { 4 * r.below(2) + r.below(2) } else { r.below(6) } { 0 => gets.push(vec![2, r.pick(&ERR_CODES)]), 1 => gets.push(vec![1]), 2 => { let i = r.below(gets.len() as u64 + 1) as usize; gets.insert(i, vec![1]); } 3 => { let i = r.below(gets.len() as u64 + 1) as usize; gets.insert(i, vec![2, r.pick(&ERR_CODES)]); } _ => {} }
             l.push(gets.len() as u64); for g in gets.iter() { push_list(&mut l, g); }
             for _ in 0..r.below(3) { l.push(if r.chance(1, 4) { r.pick(&ERR_CODES) } else { 0 }); }
             cx.emit(&l);
